@@ -103,6 +103,13 @@ CLAIMED["C13"] = (
     "DESIGN.md section 3, C13",
 )
 
+CLAIMED["C07"] = (
+    "template census of the generator + OPA's parser applied to instantiated templates + abstract interpretation of bracket stacks over emitting functions + identifier-collision tables + taint analysis + grammar/regexp table agreement",
+    "The translator's templates and name generators are finite, so 'never fails because of names or code the translator invented' is decided per template: every self-contained template parses (for every operator constant its holes can take), multi-line emitters keep bracket discipline and built-in arity for any number of alternatives (loops unrolled, first-iteration idiom understood), no generated identifier collides with a keyword / preamble rule / built-in / template-local name, rule heads are fresh or level names, path text and the package name are neutralised, text is quoted with JSON (not Go) escapes, and the IRI characters of the grammar are accepted by the expander. This covers the negated twin of every constraint and every rarely taken emission branch, which no fixture instantiates.",
+    "OPA's later compile stages (safety, types, recursion, compile time) on the assembled module are not decided; the checker links OPA v0.47.0 as parser and keyword/builtin table (same version as the repository's go.mod). " + TRUST,
+    "DESIGN.md section 3, C07",
+)
+
 # properties without a check yet (or declined), with the reason
 NOT_APPLICABLE = {
 }
